@@ -774,3 +774,19 @@ func (s TSnapshot) DataPayload() (payload []byte, err error) {
 	}
 	return payload, nil
 }
+
+// WaitDataBytesProgress waits until n DATA payload bytes arrived, the server
+// side ended, or nothing new arrived for `stall`.
+func (t *TClient) WaitDataBytesProgress(n int, stall time.Duration) (got int, stalled bool) {
+	last := -1
+	for {
+		g, to := t.WaitDataBytes(n, stall)
+		if !to {
+			return g, false
+		}
+		if g == last {
+			return g, true
+		}
+		last = g
+	}
+}
